@@ -341,39 +341,50 @@ def inputThunk (args : Args) (w : World) : Option ThunkSrc :=
     | some data => if w.loadVirt "<stdin>" data then some (.virt "<stdin>" data) else none
   | .file path => if w.loadReal path then some (.real path) else none
 
+/-- `main_inner` from reading the input up to the value that is to be written
+    (`root_value` after the optional top-level call); `none` = `Err(RunError::Generic)`
+    after a message.  The `Bool` records the non-fatal "TLA defined more than once" message. -/
+def evalStages (args : Args) (w : World) : Option (Value × Bool) :=
+  match inputThunk args w with
+  | none => none
+  | some root =>
+    match extLoop (extItems args w) [] with
+    | none => none
+    | some ext =>
+      match tlaLoop (tlaItems args w) [] false with
+      | none => none
+      | some (tla, dupMsg) =>
+        match w.evalRoot root ext with
+        | none => none
+        | some rootValue =>
+          match callStage w ext tla rootValue with
+          | none => none
+          | some value => some (value, dupMsg)
+
+/-- The rest of `main_inner`: manifestation (`-m` files are written on the way) and
+    the final write to the `-o` file or to stdout (`write_all` then `flush`). -/
+def finish (args : Args) (w : World) (value : Value) (dupMsg : Bool) : Result :=
+  match render args w value with
+  | (files, none) => fail files
+  | (files, some output) =>
+    match args.output with
+    | some path =>
+      if w.writeFile path output then
+        { exit := 0, stdout := "", stderrNonEmpty := dupMsg, files := files, outFile := some (path, output) }
+      else fail files
+    | none =>
+      if w.stdoutWrite output && w.stdoutFlush then
+        { exit := 0, stdout := output, stderrNonEmpty := dupMsg, files := files, outFile := none }
+      else fail files
+
 /-- `main_inner` (after clap), with `main`'s mapping to the exit status. -/
 def mainInner (args : Args) (w : World) : Result :=
   if args.string && args.yamlStream then
     { exit := 2, stdout := "", stderrNonEmpty := true, files := [], outFile := none }
   else
-    match inputThunk args w with
+    match evalStages args w with
     | none => fail []
-    | some root =>
-      match extLoop (extItems args w) [] with
-      | none => fail []
-      | some ext =>
-        match tlaLoop (tlaItems args w) [] false with
-        | none => fail []
-        | some (tla, dupMsg) =>
-          match w.evalRoot root ext with
-          | none => fail []
-          | some rootValue =>
-            match callStage w ext tla rootValue with
-            | none => fail []
-            | some value =>
-              match render args w value with
-              | (files, none) => fail files
-              | (files, some output) =>
-                match args.output with
-                | some path =>
-                  if w.writeFile path output then
-                    { exit := 0, stdout := "", stderrNonEmpty := dupMsg, files := files,
-                      outFile := some (path, output) }
-                  else fail files
-                | none =>
-                  if w.stdoutWrite output && w.stdoutFlush then
-                    { exit := 0, stdout := output, stderrNonEmpty := dupMsg, files := files, outFile := none }
-                  else fail files
+    | some (value, dupMsg) => finish args w value dupMsg
 
 /-! ## Driver
 
